@@ -188,3 +188,42 @@ def search(ctx, budget_s):
             if msg:
                 return c, msg
     return None
+
+
+def shrink(case, msg):
+    """smallest bare-circuit call of the same kind that fails with the same class"""
+    if 'call' not in case:
+        return case, msg
+    key = classify(case, msg)
+    call = case['call']
+    kind = call[0]
+    cands = []
+    if kind in ('nbits', 'pow2'):
+        for n in range(1, 9):
+            for be in (False, True):
+                h = ac.bare_host(n)
+                cands.append({'host': h, 'k0': 1, 'call': [kind, call[1], be, list(h['inputs'])]})
+    elif kind == 'easy':
+        for n in range(1, 9):
+            h = ac.bare_host(n)
+            cands.append({'host': h, 'k0': 1, 'call': [kind, call[1], list(h['inputs'])]})
+    elif kind in ('weighted', 'naive'):
+        for n in range(1, 7):
+            h = ac.bare_host(n)
+            for ws in ([0] * n, list(range(n)), [i // 2 for i in range(n)]):
+                cands.append({'host': h, 'k0': 1, 'call': [kind, call[1], [[w, l] for w, l in zip(ws, h['inputs'])]]})
+    elif kind == 'shift':
+        for n in range(1, 4):
+            for m in range(1, 4):
+                for sh in range(0, n + 4):
+                    for be in (False, True):
+                        h = ac.bare_host(n + m)
+                        cands.append({'host': h, 'k0': 1, 'call': [kind, sh, h['inputs'][:n], h['inputs'][n:], be]})
+    for c in cands:
+        try:
+            m = sc.oracle(c, random.Random(1), limit_bits=10)
+        except Exception:  # noqa: BLE001
+            continue
+        if m and classify(c, m) == key:
+            return c, m
+    return case, msg
